@@ -174,7 +174,7 @@ func OpenODS(path string) (*ODS, error) {
 
 	h, err := readHeader(f)
 	if err != nil {
-		return nil, err
+		return nil, errors.Join(err, f.Close())
 	}
 
 	return &ODS{
